@@ -345,6 +345,62 @@ func (l *lab) mutants(k labKind, base []byte) []labMutant {
 	return ms
 }
 
+// wire-level mutants: byte strings that do not decode, or that decode but OMIT members or set them to
+// null.  Submitted right after the genuine transaction on the same ABCI connection, none of them may
+// be admitted or executed: whatever a decoder leaves untouched must not be inherited from an earlier
+// request.
+func wireMutants(base []byte) []labMutant {
+	out := []labMutant{}
+	add := func(name string, bz []byte) { out = append(out, labMutant{"wire." + name, "wire", bz}) }
+	add("empty-object", []byte("{}"))
+	add("null", []byte("null"))
+	add("no-bytes", []byte{})
+	add("array", []byte("[]"))
+	add("number", []byte("0"))
+	add("string", []byte(`"x"`))
+	add("open-brace", []byte("{"))
+	add("truncated-half", append([]byte{}, base[:len(base)/2]...))
+	add("truncated-last-byte", append([]byte{}, base[:len(base)-1]...))
+	add("trailing-garbage", append(append([]byte{}, base...), []byte("}x")...))
+	if i := bytes.IndexByte(base, ':'); i > 0 {
+		d := append([]byte{}, base...)
+		d[i] = ';'
+		add("damaged-structural-byte", d)
+	}
+	var m map[string]json.RawMessage
+	if json.Unmarshal(base, &m) == nil {
+		names := []string{}
+		for k := range m {
+			names = append(names, k)
+		}
+		sort.Strings(names)
+		for _, f := range names {
+			m2 := map[string]json.RawMessage{}
+			for k, v := range m {
+				if k != f {
+					m2[k] = v
+				}
+			}
+			if bz, err := json.Marshal(m2); err == nil {
+				add("member-absent-"+f, bz)
+			}
+			m3 := map[string]json.RawMessage{}
+			for k, v := range m {
+				m3[k] = v
+			}
+			m3[f] = json.RawMessage("null")
+			if bz, err := json.Marshal(m3); err == nil {
+				add("member-null-"+f, bz)
+			}
+		}
+		only := map[string]json.RawMessage{"zz": json.RawMessage("1")}
+		if bz, err := json.Marshal(only); err == nil {
+			add("unknown-member-only", bz)
+		}
+	}
+	return out
+}
+
 // re-encodings of the same signed content: the parsed SignedTx is identical
 func reencodings(base []byte, r *rand.Rand) []labMutant {
 	out := []labMutant{}
